@@ -236,61 +236,79 @@ func (s *Sched) Step(t *Thread) []Event {
 	t.status = stRunning
 	t.resume <- struct{}{}
 	var own, others []Event
-	take := func(ev Event) {
-		s.note(ev)
+	put := func(ev Event) {
 		if ev.T == t && own == nil {
 			own = append(own, ev)
 		} else {
 			others = append(others, ev)
 		}
 	}
-	deadline := time.Now().Add(s.HangAfter)
-	spins := 0
-	for {
-		// drain what has arrived
-		drained := false
+	take := func(ev Event) {
+		s.note(ev)
+		put(ev)
+	}
+	drain := func() bool {
+		got := false
 		for {
 			select {
 			case ev := <-s.events:
 				take(ev)
-				drained = true
+				got = true
 				continue
 			default:
 			}
-			break
+			return got
 		}
-		_ = drained
-		live := false
+	}
+	count := func(st int) int {
+		n := 0
 		for _, x := range s.Threads {
-			if x.status == stRunning || x.status == stBlocked {
-				live = true
+			if x.status == st {
+				n++
 			}
 		}
-		if !live {
-			break
-		}
-		states := goStates()
-		// an event sent before the snapshot is in the channel by now
-		again := false
-		for {
+		return n
+	}
+	deadline := time.Now().Add(s.HangAfter)
+	wait := 20 * time.Microsecond
+	for {
+		if count(stRunning) > 0 {
+			// the usual case: the released thread reports its next stop
+			tm := time.NewTimer(wait)
 			select {
 			case ev := <-s.events:
+				tm.Stop()
 				take(ev)
-				again = true
 				continue
-			default:
+			case <-tm.C:
+				if wait < 2*time.Millisecond {
+					wait *= 2
+				}
 			}
+		}
+		drain()
+		if count(stRunning) == 0 && count(stBlocked) == 0 {
 			break
 		}
-		if again {
-			continue
+		// Some thread has not reported (it may be parked in the runtime), or
+		// a thread parked in the runtime may have been woken by this step.
+		states := goStates()
+		if drain() {
+			continue // an event sent before the snapshot is in the channel by now
+		}
+		for _, x := range s.Threads {
+			// a thread woken from a runtime wait is running again
+			if x.status == stBlocked && !waitState(states[x.goid]) {
+				x.status = stRunning
+			}
+		}
+		if count(stRunning) == 0 {
+			break // whoever was parked in the runtime still is
 		}
 		quiet := true
 		for _, x := range s.Threads {
-			if x.status == stRunning || x.status == stBlocked {
-				if !waitState(states[x.goid]) {
-					quiet = false
-				}
+			if x.status == stRunning && !waitState(states[x.goid]) {
+				quiet = false
 			}
 		}
 		if quiet {
@@ -298,40 +316,18 @@ func (s *Sched) Step(t *Thread) []Event {
 				if x.status == stRunning {
 					x.status = stBlocked
 					x.LastKind, x.LastPoint = "blocked", states[x.goid]
-					ev := Event{T: x, Kind: "blocked", Point: states[x.goid]}
-					if x == t && own == nil {
-						own = append(own, ev)
-					} else {
-						others = append(others, ev)
-					}
+					put(Event{T: x, Kind: "blocked", Point: states[x.goid]})
 				}
 			}
 			break
-		}
-		// a thread woken from a runtime wait is running: it is not blocked any more
-		for _, x := range s.Threads {
-			if x.status == stBlocked && !waitState(states[x.goid]) {
-				x.status = stRunning
-			}
 		}
 		if time.Now().After(deadline) {
 			for _, x := range s.Threads {
 				if x.status == stRunning {
-					ev := Event{T: x, Kind: "hang", Point: states[x.goid]}
-					if x == t && own == nil {
-						own = append(own, ev)
-					} else {
-						others = append(others, ev)
-					}
+					put(Event{T: x, Kind: "hang", Point: states[x.goid]})
 				}
 			}
 			break
-		}
-		spins++
-		if spins < 50 {
-			runtime.Gosched()
-		} else {
-			time.Sleep(50 * time.Microsecond)
 		}
 	}
 	return append(own, others...)
